@@ -29,7 +29,8 @@ func (v *VC) Preamble() string {
 	sb.WriteString("(define-fun iface-ptr ((i Iface)) Ptr (ite ((_ is iface-p) i) (ip-val i) nilp))\n")
 	sb.WriteString("(define-fun iface-tid ((i Iface)) Int (ite ((_ is iface-p) i) (ip-type i) (ite ((_ is iface-i) i) (ii-type i) (ite ((_ is iface-s) i) (is-type i) (ite ((_ is iface-o) i) (io-type i) 0)))))\n")
 	sb.WriteString("(declare-fun root (Ptr) Int)\n(assert (= (root nilp) 0))\n(assert (forall ((i Int)) (! (= (root (obj i)) i) :pattern ((obj i)))))\n(assert (forall ((p Ptr) (k Int)) (! (= (root (fld p k)) (root p)) :pattern ((fld p k)))))\n(assert (forall ((p Ptr) (k Int)) (! (= (root (elm p k)) (root p)) :pattern ((elm p k)))))\n")
-	fmt.Fprintf(&sb, "(define-fun ext ((p Ptr)) Bool (or (<= (root p) 0) (> (root p) %d)))\n", escBase)
+	sb.WriteString("(declare-fun priv (Int) Bool)\n(assert (forall ((i Int)) (! (=> (<= i 0) (not (priv i))) :pattern ((priv i)))))\n")
+	sb.WriteString("(define-fun ext ((p Ptr)) Bool (not (priv (root p))))\n")
 	sb.WriteString("(declare-fun selem (Slice Int) Ptr)\n(assert (forall ((s Slice) (i Int)) (! (= (selem s i) (elm (s-base s) (+ (s-off s) i))) :pattern ((selem s i)))))\n")
 	if v.features["in-window"] {
 		sb.WriteString("(declare-fun eidx (Ptr) Int)\n(declare-fun ebase (Ptr) Ptr)\n")
@@ -145,13 +146,16 @@ func (v *VC) Preamble() string {
 	for _, k := range hk {
 		n := v.entryHeap[k]
 		fmt.Fprintf(&sb, "(declare-const %s %s)\n", n, v.heapSortOf(k))
+		if k == clockKey {
+			fmt.Fprintf(&sb, "(assert (= %s 0))\n", n)
+		}
 		srt := v.heapKeys[k]
 		if !strings.HasPrefix(srt, "RAW:") {
 			if isPtrLike(srt) {
 				fmt.Fprintf(&sb, "(assert (forall ((p Ptr)) (! (<= (root %s) 0) :pattern ((select %s p)))))\n", ptrOf(srt, fmt.Sprintf("(select %s p)", n)), n)
 			}
-			if srt == "Slice" {
-				fmt.Fprintf(&sb, "(assert (forall ((p Ptr)) (! (and (<= 0 (s-off (select %s p))) (<= 0 (s-len (select %s p))) (<= (s-len (select %s p)) (s-cap (select %s p)))) :pattern ((select %s p)))))\n", n, n, n, n, n)
+			if ax := v.heapTypeAxiom(n, k); ax != "" {
+				sb.WriteString(ax + "\n")
 			}
 		}
 	}
